@@ -210,6 +210,8 @@ def plan(chk: C18Check, rng: random.Random) -> List[Dict[str, Any]]:
             add({"op": "cli", "c": cid, "argv": _argv(target, dets, None), "expect_dets": dets})
             if filt is not None:
                 add({"op": "cli", "c": cid, "argv": _argv(target, dets, filt), "expect_dets": dets, "filtered": True})
+        # the hidden --debug flag (logger levels; debug-only code runs before main() filters)
+        add({"op": "cli", "c": cid, "argv": ["--debug"] + _argv("-", dets, filt), "expect_dets": dets, "filtered": filt is not None})
         if dets is not None:
             for target in ("-", "out.json"):
                 add({"op": "cli", "c": cid, "argv": _argv(target, dets + ["nope"], None), "misuse": "unknown_detector"})
